@@ -23,7 +23,8 @@ PROP = {'drive': ['Dsl'],
                        'C19_roundtrip_gpos3',
                        'C19_roundtrip_gpos4',
                        'C19_glyphlist_roundtrip',
-                       'C19_total_partial'],
+                       'C19_total_partial',
+                       'C19_total'],
  'areas': [('dsl', 6000, 60000)],
  'rule': 'distinct case lines (font = glyph count, names, cmap; text or lookup list; GOMAXPROCS); non-trivial = '
          'text of at least two bytes / at least one lookup / a non-zero flag set',
@@ -36,14 +37,16 @@ PROP = {'drive': ['Dsl'],
              'mixing types 1-4 (C19_roundtrip_gpos1, C19_roundtrip_gpos2, C19_roundtrip_gpos3, C19_roundtrip_gpos4, '
              'C19_roundtrip_gpos_lists); the small '
              'universes remain as kernel-evaluated examples',
-             'GSUB 5/6 (contextual forms, in the notation also used for GPOS 7/8): parser and printer not modelled in '
+             'GSUB 5/6 and GPOS 7/8 (contextual forms, one notation; GPOS 7/8 readable only since repair 14): parser and printer not modelled in '
              'Lean; the round trip Parse(Explain(l)) = l is evaluated on the real code only (stream dsl.rtseed: lookups '
              'regenerated from the seed in the case line, structural comparison in the harness, Lean side fixes the '
              'verdict), plus dsl.total and dsl.goroutines',
-             'C19_total_full (no unmodelled escape) is stated; C19_total_partial is proved for all fonts and texts: the '
-             'parser model (lexer, item supply, fatal, flags, glyph lists, GSUB 1-4 and GPOS 1-4 with several subtables) '
-             'returns lookups or an error with line >= 1 or stops at a GSUB 5/6 keyword, and never runs out of loop '
-             'fuel; for the other forms the real code is checked by stream dsl.total (outcome class and line >= 1)',
+             'C19_total (no escape) is proved for every font and every text in which no item is one of the keywords '
+             'GSUB5, GSUB6, GPOS7, GPOS8: the parser model (lexer, item supply, fatal, flags, glyph lists, GSUB 1-4 '
+             'and GPOS 1-4 with several subtables) returns lookups or an error with line >= 1 and never runs out of '
+             'loop fuel; C19_total_partial says the same for all texts with the escape "stops at one of those four '
+             'keywords"; C19_total_full (no hypothesis) stays unproved - for the contextual forms the real code is '
+             'checked by stream dsl.total (outcome class and line >= 1)',
              'goroutine clause: C19_confluent/C19_terminates/C19_no_leak are about the process model; that the Go '
              'runtime implements unbuffered channels as the model says is trusted; the real code is observed by '
              'goroutine profiles after Parse under GOMAXPROCS 1, 2, 4, 16 (dsl.goroutines)',
@@ -69,7 +72,7 @@ PROP = {'drive': ['Dsl'],
                  'coverage ascending and non-empty with int16 anchors, GPOS 4 at least one mark record per subtable, mark '
                  'and base glyphs ascending, mark classes exactly 0..k-1 (< 65536), k int16 anchors per base record',
                  'the models mirror the builder including the repairs 12 (NUL byte) and 13 (font without cmap), both '
-                 'committed in /repo']}
+                 'committed in /repo, and 14 (GPOS7/GPOS8 keywords, uncommitted edit + patches/C19/14)']}
 
 LEVEL = {'text': 'Proof (partial): Lean models of the lexer (token machine over Go-decoded UTF-8, line counting), of '
          'Parse for lookup flags, glyph lists/sets/ranges/strings, GSUB 1-4 and GPOS 1-4, of ExplainGsub/ExplainGpos for the same, and a '
@@ -87,6 +90,6 @@ LEVEL = {'text': 'Proof (partial): Lean models of the lexer (token machine over 
          'the real code.',
  'note': 'Trusted: Lean kernel + 3 standard axioms; hand-written models mirror lexer.go/parser.go/explain.go as '
          'checked by sampled correspondence; Go runtime semantics of unbuffered channels; Unicode tables of the '
-         'toolchain (regenerated). Thirteen defects repaired in /repo (all committed as fix: builder: ...).',
+         'toolchain (regenerated). Fourteen defects repaired in /repo (thirteen committed as fix: builder: ...; the fourteenth, GPOS7/GPOS8 not accepted by Parse, is patches/C19/14 and an uncommitted edit of parser.go).',
  'technique': 'Lean 4 proofs (induction over inputs and schedules, diamond property, kernel evaluation of finite '
               'universes) + differential correspondence + direct evaluation on the real code'}
